@@ -81,7 +81,6 @@ def coverLemma : Cover → Lean.Name
   | .maskUri => ``mask_uri_independent
   | .maskBody => ``mask_body_independent
   | .maskError => ``mask_error_independent
-  | .maskApi => ``mask_api_uri_independent
   | .nsxLogin => ``nsx_login_log_independent
   | .deviceOutput => ``ssh_session_independent
   | .copyOfRunLog => ``sinks_independent
